@@ -85,8 +85,8 @@ def sets_as_data(ctx):
             fh.write(json.dumps(rcd) + "\n")
     r = ctx.mc("MC_KmerData", "MC_KmerData.cfg" if ctx.quick else "MC_KmerData_thorough.cfg",
                env={"CONFIG_FILE": path}, workers=12, timeout=3000)
-    cands = re.findall(r'<<"CAND", (\d+), <<([\d, ]*)>>>>', r["out"])
-    nonconf = set(re.findall(r'<<"NONCONF", (\d+)>>', r["out"]))
+    cands = re.findall(r'<<"CAND", (\d+), <<([\d, ]*)>>>>', r["nout"])
+    nonconf = set(re.findall(r'<<"NONCONF", (\d+)>>', r["nout"]))
     ctx.extra["sets_as_data_configs"] = len(recs)
     ctx.extra["model_conformance"] = round(1 - len(nonconf) / max(1, len(recs)), 4)
     ctx.extra["model_candidates_replayed"] = len(cands)
